@@ -25,6 +25,9 @@ use std::hash::Hasher;
 pub const DEFAULT_MIN_LEASE: std::time::Duration = std::time::Duration::from_secs(300);
 pub const DEFAULT_MAX_LEASE: std::time::Duration = std::time::Duration::from_secs(86400);
 
+#[cfg(feature = "verif")]
+pub use rusqlite;
+
 pub type PoolAddresses = std::collections::HashSet<std::net::Ipv4Addr>;
 
 #[derive(Debug)]
@@ -193,6 +196,12 @@ impl Pool {
 
     fn new_with_conn(conn: rusqlite::Connection) -> Result<Self, Error> {
         Pool { conn }.setup_db()
+    }
+
+    /// Verification hook: open the lease store on a caller supplied connection.
+    #[cfg(feature = "verif")]
+    pub fn verif_with_conn(conn: rusqlite::Connection) -> Result<Pool, Error> {
+        Self::new_with_conn(conn)
     }
 
     //#[cfg(any(test, fuzzing))]
